@@ -28,7 +28,7 @@ pub fn def() -> CheckDef {
 const KINDS: [&str; 7] = ["immutable", "mutable", "mutable+salt", "announce_peer(port)", "announce_peer(implied)", "announce_signed_peer", "immutable(1000 bytes)"];
 
 fn info(tier: Tier) -> CheckInfo {
-    CheckInfo {
+    let mut ci = CheckInfo {
         id: "C01",
         level: "model_checking",
         rule: format!(
@@ -42,7 +42,9 @@ fn info(tier: Tier) -> CheckInfo {
             "honest, mutually reachable nodes; latencies below the request timeout".into(),
             "the 50..300-node success-rate clause is statistical and not decided here".into(),
         ],
-    }
+    };
+    ci.rule.push_str(" Added: the plain, overlapping-caller and own-put variants are also run through the blocking Dht API.");
+    ci
 }
 
 #[derive(Clone, Debug)]
